@@ -306,8 +306,21 @@ def identifiers_harness(service_kind: str):
         st: dict[str, Any] = {}
         nsub = 3 if service_kind == "rc" else 1
 
+        def count_of(I2: Interp, v: V) -> Any:
+            """a tally by role: an int counter, or a collection whose size is reported"""
+            return v.length() if isinstance(v, VList) else models.as_int(I2, v)
+
         def havoc(I2: Interp, fr: Frame) -> None:
             for n in ("positive_DIDs", "abnormal_DIDs", "timeout_DIDs"):
+                cur = fr.env.get(n)
+                if isinstance(cur, VList):
+                    # the tally is kept as a collection: any earlier content
+                    held = z3.Function(I2.fresh_name("HELD_" + n), z3.IntSort(), z3.BoolSort())
+                    cur.become(VList(None, I2.fresh_int("n_" + n, 0).t,
+                                     lambda j: VInt(I2.fresh_int("tally_elt").t), kind=cur.kind,
+                                     member=lambda v, held=held: held(models.as_int(I2, v))))
+                    st[n] = cur.length()
+                    continue
                 fr.env[n] = I2.fresh_int(n, 0)
                 st[n] = fr.env[n].t
             I2.ghost["probes"] = []
@@ -350,9 +363,9 @@ def identifiers_harness(service_kind: str):
                     d["p"] = 1
                 elif ans == "timeout":
                     d["t"] = 1
-            pos = models.as_int(I2, fr.env["positive_DIDs"]) - st["positive_DIDs"]
-            abn = models.as_int(I2, fr.env["abnormal_DIDs"]) - st["abnormal_DIDs"]
-            tmo = models.as_int(I2, fr.env["timeout_DIDs"]) - st["timeout_DIDs"]
+            pos = count_of(I2, fr.env["positive_DIDs"]) - st["positive_DIDs"]
+            abn = count_of(I2, fr.env["abnormal_DIDs"]) - st["abnormal_DIDs"]
+            tmo = count_of(I2, fr.env["timeout_DIDs"]) - st["timeout_DIDs"]
             out.append(("positive-counter-counts-positive-replies", pos == d["p"]))
             out.append(("timeout-counter-counts-timeouts", tmo == d["t"]))
             if probes and probes[0][1] == "other-negative":
@@ -509,7 +522,55 @@ def native_identifiers(kind: str, start: int, end: int) -> tuple[bool, str]:
     return False, f"{kind} scan {start:#x}..{end:#x}: every identifier of the range was probed"
 
 
+def native_tallies(kind: str) -> tuple[bool, str]:
+    """an ECU model that answers positively, with an expected / an unexpected negative code or
+    not at all, as a function of the request: the three reported tallies must equal the number
+    of positive replies, of unexpected negative replies and of timeouts"""
+    import asyncio
+    import logging
+    import re
+    logging.disable(logging.CRITICAL)
+    services, identifiers, S, X = mods()
+    from gallia.services.uds.core.constants import UDSErrorCodes as E
+    svc = {"SecurityAccess": 0x27, "RoutineControl": 0x31, "ReadDataByIdentifier": 0x22}[kind]
+    tally = {"Positive replies": 0, "Abnormal replies": 0, "Timeouts": 0}
+
+    class Ecu:
+        async def send_raw(self, pdu: bytes, config: Any = None) -> Any:
+            did = pdu[-1]
+            if did % 5 == 0:          # every sub-function of such an identifier is positive
+                tally["Positive replies"] += 1
+                return S.RawPositiveResponse(bytes([pdu[0] + 0x40]) + pdu[1:])
+            if did % 5 == 1:
+                tally["Abnormal replies"] += 1
+                return S.NegativeResponse(pdu[0], E.generalReject)
+            if did % 5 == 2:
+                tally["Timeouts"] += 1
+                raise asyncio.TimeoutError
+            return S.NegativeResponse(pdu[0], E.requestOutOfRange)
+    lines: list[str] = []
+    cfg = identifiers.ScanIdentifiersConfig(target="tcp-lines://127.0.0.1:1", db=None,
+                                            service=svc, start=0, end=0x2F)
+    sc = identifiers.ScanIdentifiers(cfg)
+    sc.ecu = Ecu()  # type: ignore[assignment]
+    old = identifiers.logger.result
+    identifiers.logger.result = lambda m, *a, **k: lines.append(str(m))  # type: ignore
+    try:
+        asyncio.run(sc.perform_scan())
+    finally:
+        identifiers.logger.result = old  # type: ignore
+    got = {}
+    for ln in lines:
+        m = re.match(r"(Positive replies|Abnormal replies|Timeouts): (\d+)", ln)
+        if m:
+            got[m.group(1)] = int(m.group(2))
+    return got != tally, (f"{kind} scan 0x00..0x2f: reported {got}, the ECU model gave {tally}")
+
+
 def native_replay(unit: str, obligation: str, model: dict) -> tuple[bool, str]:
+    if unit.startswith("identifiers/perform_scan/") and ("counter" in obligation
+                                                          or "D-reported" in obligation):
+        return native_tallies(unit.split("/")[-1])
     if unit.startswith("services/perform_scan"):
         for seed in range(int(model.get("seed", 0)), int(model.get("seed", 0)) + 6):
             bad, msg = native_services(seed)
